@@ -276,6 +276,14 @@ func (x *FnExec) bitAndInt(a, b *Term, bt *types.Basic) *Term {
 			return r
 		}
 	}
+	if bv, ok := b.intConst(); ok && bv.Sign() < 0 {
+		// a & c with c < 0: clears the bits of ^c (>= 0):  a & c == a - (a & ^c)  in two's complement
+		nb := new(big.Int).Sub(new(big.Int).Neg(bv), big.NewInt(1))
+		if nb.Sign() == 0 {
+			return a
+		}
+		return tc.Sub(a, x.bitAndInt(a, tc.BigInt(nb), bt))
+	}
 	unsupp("bitwise & with non-constant operands in int mode (use mode bv)")
 	return nil
 }
@@ -466,6 +474,12 @@ func (x *FnExec) constTerm(val constant.Value, t types.Type) Value {
 	case constant.Bool:
 		return x.tc.Bool(constant.BoolVal(val))
 	case constant.Int:
+		if b := basicOf(t); b != nil && b.Info()&types.IsFloat != 0 {
+			if val.ExactString() == "0" {
+				return x.zeroScalar("Real")
+			}
+			return x.tc.Sym("float:"+sanitize(val.ExactString()), "Real")
+		}
 		n, _ := new(big.Int).SetString(val.ExactString(), 10)
 		return x.bigConst(n, t)
 	case constant.String:
